@@ -3,6 +3,7 @@ import GqlProofs.ParserComplete
 import GqlProofs.ParserProgress
 import GqlProofs.ParserLoc
 import GqlProofs.ParserTop
+import GqlProofs.RecogniseSound
 /-! # C03 (parser half) — the parser accepts exactly the GraphQL grammar and builds the AST it defines
 
 Property theorems only.  `M` = `GqlModel.Parser` (parser.go function for function, on the token list the lexer
@@ -127,6 +128,69 @@ theorem parser_sound_fails :
 /-- the executable recogniser (the second rendering of the productions) rejects them too -/
 theorem d03b_recogniser_rejects : recogniseToks d03b_closing = some false ∧ recogniseToks d03b_leading = some false ∧
     recogniseToks d03b_missing = some false := by decide
+
+/-! ## The two renderings of S agree: the executable recogniser decides the derivation relations
+
+`Grammar.recogniseToks` (the productions as EBNF data, run by the generic interpreter `Grammar.run`) is what the
+correspondence harness compares the real parser with; `DerivesDoc` is what the theorems above are about.
+Whenever the recogniser answers, its answer is the truth about `DerivesDoc` — and hence, by `parser_iff_partial`,
+about M accepting with the flag down.  (It answers `none` only when its fuel `64·|toks| + 256` runs out; that
+bound is not proved sufficient — the harness reports a `none` as CHECK-ERROR and has never seen one.) -/
+
+/-- `some true` ⇒ derivable -/
+theorem recognise_sound (toks : List Token) (eofPos : Nat) (h : recogniseToks toks = some true) :
+    ∃ d, DerivesDoc toks eofPos d := by
+  unfold recogniseToks at h
+  cases hr : run (recogniseFuel toks) (.nt .document) toks with
+  | fuel => simp [hr] at h
+  | no => simp [hr] at h
+  | rest r =>
+    simp only [hr, Option.some.injEq, List.isEmpty_iff] at h
+    subst h
+    exact run_derivesDoc eofPos (run_sound _ _ _ (.rest []) hr)
+
+/-- `some false` ⇒ not derivable -/
+theorem recognise_reject_sound (toks : List Token) (eofPos : Nat) (h : recogniseToks toks = some false) :
+    ¬ ∃ d, DerivesDoc toks eofPos d := by
+  rintro ⟨d, hd⟩
+  have hD := derivesDoc_run hd
+  unfold recogniseToks at h
+  cases hr : run (recogniseFuel toks) (.nt .document) toks with
+  | fuel => simp [hr] at h
+  | no => cases Run.det hD (run_sound _ _ _ .no hr)
+  | rest r =>
+    simp only [hr, Option.some.injEq, List.isEmpty_eq_false_iff] at h
+    have := Run.det hD (run_sound _ _ _ (.rest r) hr)
+    simp only [Out.rest.injEq] at this
+    exact h this.symm
+
+/-- **recognise_iff_derives**: an answer of the recogniser is `true` exactly for the documents of the grammar -/
+theorem recognise_iff_derives (toks : List Token) (eofPos : Nat) (b : Bool) (h : recogniseToks toks = some b) :
+    b = true ↔ ∃ d, DerivesDoc toks eofPos d := by
+  cases b with
+  | true => exact ⟨fun _ => recognise_sound toks eofPos h, fun _ => rfl⟩
+  | false => exact ⟨fun hb => Bool.noConfusion hb, fun hd => absurd hd (recognise_reject_sound toks eofPos h)⟩
+
+/-- completeness modulo fuel: a document of the grammar is never rejected -/
+theorem derives_recognise (toks : List Token) (eofPos : Nat) (d : Document) (h : DerivesDoc toks eofPos d) :
+    recogniseToks toks = some true ∨ recogniseToks toks = none := by
+  cases hr : recogniseToks toks with
+  | none => exact .inr rfl
+  | some b =>
+    cases b with
+    | true => exact .inl rfl
+    | false => exact absurd ⟨d, h⟩ (recognise_reject_sound toks eofPos hr)
+
+/-- with some amount of fuel the interpreter does accept every document of the grammar, and stays accepting -/
+theorem derives_run (toks : List Token) (eofPos : Nat) (d : Document) (h : DerivesDoc toks eofPos d) :
+    ∃ N, ∀ n, N ≤ n → run n (.nt .document) toks = .rest [] :=
+  run_complete (derivesDoc_run h)
+
+/-- the recogniser against M: an answer `true` ⇔ M accepts without going through a malformed type reference -/
+theorem recognise_iff_parser (toks : List Token) (eofPos : Nat) (b : Bool) (h : recogniseToks toks = some b) :
+    b = true ↔ ∃ d, parseToks toks eofPos = .ok ⟨d, false⟩ := by
+  rw [recognise_iff_derives toks eofPos b h]
+  exact ⟨fun ⟨d, hd⟩ => ⟨d, parseToks_complete hd⟩, fun ⟨d, hd⟩ => ⟨d, parseToks_sound hd⟩⟩
 
 /-! ## Termination -/
 
